@@ -4,6 +4,7 @@ package main
 
 import (
 	"fmt"
+	"strings"
 	"go/token"
 	"go/types"
 	"sort"
@@ -271,7 +272,7 @@ func (x *Exec) enterBlock(st *State, b, from *ssa.BasicBlock) bool {
 		x.oblige(st, "inv-entry", fmt.Sprintf("%s:auto%d", lkey, i), a, nil, "inferred loop invariant holds on entry")
 	}
 	// havoc
-	ws := &writeSet{heaps: map[string]string{}, cells: map[int]bool{}, iters: map[int]bool{}}
+	ws := newWriteSet()
 	var blocks []*ssa.BasicBlock
 	for blk := range li.body {
 		blocks = append(blocks, blk)
@@ -287,7 +288,29 @@ func (x *Exec) enterBlock(st *State, b, from *ssa.BasicBlock) bool {
 		}
 		sort.Strings(hn)
 		for _, n := range hn {
-			x.havocHeap(st, n, ws.heaps[n])
+			if n == "$alloc" || ws.total[n] != ws.exact[n] || !(strings.HasPrefix(n, "F$") || strings.HasPrefix(n, "E$") || strings.HasPrefix(n, "P$") || strings.HasPrefix(n, "MD$") || strings.HasPrefix(n, "MV$")) {
+				x.havocHeap(st, n, ws.heaps[n])
+				continue
+			}
+			// every write in the loop goes to an object allocated inside the loop or to a reference
+			// that is fixed before the loop: all other cells keep their value (inferred frame)
+			old := x.heap(st, n, ws.heaps[n])
+			cur := old
+			if ws.fresh[n] {
+				cur = x.havocHeap(st, n, ws.heaps[n])
+				st.assume(fmt.Sprintf("(forall ((r Int)) (! (=> (< r %s) (= (select %s r) (select %s r))) :pattern ((select %s r))))", lc.allocAt, cur, old, cur))
+			}
+			elemSort := strings.TrimSuffix(strings.TrimPrefix(ws.heaps[n], "(Array Int "), ")")
+			for _, ref := range ws.point[n] {
+				fv := x.freshConst(st, "hv", elemSort)
+				if et, ok := x.heapElem[n]; ok && !strings.HasPrefix(n, "E$") && !strings.HasPrefix(n, "M") {
+					x.assumeWF(st, fv, et)
+				}
+				cur = sto(cur, ref, fv)
+			}
+			if len(ws.point[n]) > 0 {
+				x.setHeap(st, n, ws.heaps[n], cur)
+			}
 		}
 	}
 	var cs []int
@@ -492,6 +515,32 @@ type writeSet struct {
 	cells map[int]bool
 	iters map[int]bool
 	all   bool
+	total map[string]int      // number of write sites per heap
+	exact map[string]int      // of those: writes to objects allocated inside the analysed code, or pointwise
+	point map[string][]string // pointwise writes: heap -> reference terms (defined before the loop)
+	fresh map[string]bool     // heap has writes to fresh objects
+	inFresh bool              // analysing a store whose target is a fresh object
+}
+
+func newWriteSet() *writeSet {
+	return &writeSet{heaps: map[string]string{}, cells: map[int]bool{}, iters: map[int]bool{}, total: map[string]int{}, exact: map[string]int{}, point: map[string][]string{}, fresh: map[string]bool{}}
+}
+
+// w records a write to a heap component.
+func (ws *writeSet) w(name, sort string) {
+	ws.heaps[name] = sort
+	ws.total[name]++
+	if ws.inFresh {
+		ws.exact[name]++
+		ws.fresh[name] = true
+	}
+}
+
+func (ws *writeSet) wPoint(name, sort, ref string) {
+	ws.heaps[name] = sort
+	ws.total[name]++
+	ws.exact[name]++
+	ws.point[name] = append(ws.point[name], ref)
 }
 
 func (x *Exec) addLocWrites(l *Loc, ws *writeSet) {
@@ -499,7 +548,7 @@ func (x *Exec) addLocWrites(l *Loc, ws *writeSet) {
 	case LCell:
 		ws.cells[l.Cell] = true
 	case LGlobal:
-		ws.heaps[l.Global] = x.ctx.sortOf(l.Elem)
+		ws.w(l.Global, x.ctx.sortOf(l.Elem))
 	case LRef:
 		x.addTypeWrites(l.Elem, ws)
 	case LField:
@@ -509,13 +558,13 @@ func (x *Exec) addLocWrites(l *Loc, ws *writeSet) {
 		}
 		if root.Parent != nil && root.Kind == LField {
 			hn, hs := x.fieldHeap(root.Parent.Elem, root.Field)
-			ws.heaps[hn] = hs
+			ws.w(hn, hs)
 		} else {
 			x.addLocWrites(root, ws)
 		}
 	case LElem:
 		hn, hs := x.elemHeap(l.Elem)
-		ws.heaps[hn] = hs
+		ws.w(hn, hs)
 	case LArrIdx:
 		x.addLocWrites(l.Parent, ws)
 	}
@@ -526,17 +575,17 @@ func (x *Exec) addTypeWrites(t types.Type, ws *writeSet) {
 	if stt, ok := t.Underlying().(*types.Struct); ok {
 		for i := 0; i < stt.NumFields(); i++ {
 			hn, hs := x.fieldHeap(t, i)
-			ws.heaps[hn] = hs
+			ws.w(hn, hs)
 		}
 		return
 	}
 	if at, ok := t.Underlying().(*types.Array); ok {
 		hn, hs := x.elemHeap(at.Elem())
-		ws.heaps[hn] = hs
+		ws.w(hn, hs)
 		return
 	}
 	hn, hs := x.boxHeap(t)
-	ws.heaps[hn] = hs
+	ws.w(hn, hs)
 }
 
 func (x *Exec) staticAddrWrites(addr ssa.Value, ws *writeSet) {
@@ -552,17 +601,17 @@ func (x *Exec) staticAddrWrites(addr ssa.Value, ws *writeSet) {
 		}
 		pt := root.X.Type().Underlying().(*types.Pointer).Elem()
 		hn, hs := x.fieldHeap(pt, root.Field)
-		ws.heaps[hn] = hs
+		ws.w(hn, hs)
 		// the root may itself be an address-taken local struct: same heap
 	case *ssa.IndexAddr:
 		switch u := a.X.Type().Underlying().(type) {
 		case *types.Slice:
 			hn, hs := x.elemHeap(u.Elem())
-			ws.heaps[hn] = hs
+			ws.w(hn, hs)
 		case *types.Pointer:
 			at := u.Elem().Underlying().(*types.Array)
 			hn, hs := x.elemHeap(at.Elem())
-			ws.heaps[hn] = hs
+			ws.w(hn, hs)
 		}
 	case *ssa.Alloc:
 		elem := a.Type().(*types.Pointer).Elem()
@@ -570,7 +619,7 @@ func (x *Exec) staticAddrWrites(addr ssa.Value, ws *writeSet) {
 			x.addTypeWrites(elem, ws)
 		}
 	case *ssa.Global:
-		ws.heaps["GV$"+a.Pkg.Pkg.Path()+"."+a.Name()] = x.ctx.sortOf(a.Type().(*types.Pointer).Elem())
+		ws.w("GV$"+a.Pkg.Pkg.Path()+"."+a.Name(), x.ctx.sortOf(a.Type().(*types.Pointer).Elem()))
 	default:
 		pt, ok := addr.Type().Underlying().(*types.Pointer)
 		if !ok {
@@ -600,35 +649,68 @@ func (x *Exec) collectWrites(st *State, fn *ssa.Function, blocks []*ssa.BasicBlo
 		for _, ins := range b.Instrs {
 			switch t := ins.(type) {
 			case *ssa.Alloc, *ssa.MakeMap, *ssa.MakeSlice, *ssa.MakeChan:
-				ws.heaps["$alloc"] = "Int"
+				ws.w("$alloc", "Int")
+				ws.inFresh = true
 				if a, ok := t.(*ssa.Alloc); ok {
 					x.staticAddrWrites(a, ws)
 				}
 				if m, ok := t.(*ssa.MakeMap); ok {
 					dn, ds, vn, vs := x.mapHeaps(m.Type().Underlying().(*types.Map))
-					ws.heaps[dn], ws.heaps[vn] = ds, vs
+					ws.w(dn, ds)
+					ws.w(vn, vs)
 				}
 				if m, ok := t.(*ssa.MakeSlice); ok {
 					hn, hs := x.elemHeap(m.Type().Underlying().(*types.Slice).Elem())
-					ws.heaps[hn] = hs
+					ws.w(hn, hs)
 				}
+				ws.inFresh = false
 			case *ssa.Convert:
 				if _, ok := t.Type().Underlying().(*types.Slice); ok {
-					ws.heaps["$alloc"] = "Int"
+					ws.w("$alloc", "Int")
 					hn, hs := x.elemHeap(t.Type().Underlying().(*types.Slice).Elem())
-					ws.heaps[hn] = hs
+					ws.w(hn, hs)
 				}
 			case *ssa.Store:
 				if env != nil {
 					if v, ok := env[t.Addr]; ok && v.Loc != nil {
+						if l := v.Loc; l.Kind == LField && l.Parent != nil && l.Parent.Kind == LRef {
+							hn, hs := x.fieldHeap(l.Parent.Elem, l.Field)
+							ws.wPoint(hn, hs, l.Parent.Ref)
+							continue
+						}
 						x.addLocWrites(v.Loc, ws)
 						continue
 					}
 				}
+				if env != nil {
+					// address computed inside the loop from a base that is fixed before the loop
+					if fa, ok := t.Addr.(*ssa.FieldAddr); ok {
+						root := fa
+						for {
+							if p, ok := root.X.(*ssa.FieldAddr); ok {
+								root = p
+								continue
+							}
+							break
+						}
+						if bv, ok := env[root.X]; ok && bv.Loc != nil && bv.Loc.Kind == LRef {
+							hn, hs := x.fieldHeap(bv.Loc.Elem, root.Field)
+							ws.wPoint(hn, hs, bv.Loc.Ref)
+							continue
+						}
+					}
+				}
+				if x.rootIsLocalAlloc(t.Addr, blocks) {
+					ws.inFresh = true
+					x.staticAddrWrites(t.Addr, ws)
+					ws.inFresh = false
+					continue
+				}
 				x.staticAddrWrites(t.Addr, ws)
 			case *ssa.MapUpdate:
 				dn, ds, vn, vs := x.mapHeaps(t.Map.Type().Underlying().(*types.Map))
-				ws.heaps[dn], ws.heaps[vn] = ds, vs
+				ws.w(dn, ds)
+					ws.w(vn, vs)
 			case *ssa.Next:
 				if env != nil {
 					if v, ok := env[t.Iter]; ok && v.It != nil {
@@ -670,15 +752,16 @@ func (x *Exec) callWrites(st *State, caller *ssa.Function, c *ssa.CallCommon, en
 		case "append":
 			sl := c.Args[0].Type().Underlying().(*types.Slice)
 			hn, hs := x.elemHeap(sl.Elem())
-			ws.heaps[hn] = hs
-			ws.heaps["$alloc"] = "Int"
+			ws.w(hn, hs)
+			ws.w("$alloc", "Int")
 		case "copy":
 			sl := c.Args[0].Type().Underlying().(*types.Slice)
 			hn, hs := x.elemHeap(sl.Elem())
-			ws.heaps[hn] = hs
+			ws.w(hn, hs)
 		case "delete":
 			dn, ds, vn, vs := x.mapHeaps(c.Args[0].Type().Underlying().(*types.Map))
-			ws.heaps[dn], ws.heaps[vn] = ds, vs
+			ws.w(dn, ds)
+					ws.w(vn, vs)
 		case "clear":
 			ws.all = true
 		}
@@ -712,7 +795,7 @@ func (x *Exec) callWrites(st *State, caller *ssa.Function, c *ssa.CallCommon, en
 			ws.all = true
 			return
 		}
-		ws.heaps["$alloc"] = "Int"
+		ws.w("$alloc", "Int")
 		x.modifiesHeaps(con, callee, c, ws)
 		return
 	}
@@ -736,9 +819,11 @@ func (x *Exec) modifiesHeaps(con *Contract, callee *ssa.Function, c *ssa.CallCom
 			ws.all = true
 			return
 		}
+		ws.inFresh = strings.HasPrefix(strings.TrimSpace(item), "fresh ")
 		for n, s := range tgt.heaps {
-			ws.heaps[n] = s
+			ws.w(n, s)
 		}
+		ws.inFresh = false
 	}
 }
 
@@ -766,4 +851,31 @@ func (x *Exec) decTags() []string {
 		}
 	}
 	return tags
+}
+
+// rootIsLocalAlloc: the address is a (nested) field / element of an object allocated by an Alloc
+// instruction inside the analysed blocks.
+func (x *Exec) rootIsLocalAlloc(addr ssa.Value, blocks []*ssa.BasicBlock) bool {
+	for {
+		switch a := addr.(type) {
+		case *ssa.FieldAddr:
+			addr = a.X
+			continue
+		case *ssa.IndexAddr:
+			if _, ok := a.X.Type().Underlying().(*types.Pointer); ok {
+				addr = a.X
+				continue
+			}
+			return false
+		case *ssa.Alloc:
+			for _, b := range blocks {
+				if a.Block() == b {
+					return true
+				}
+			}
+			return false
+		default:
+			return false
+		}
+	}
 }
